@@ -12,6 +12,8 @@ def claim(pid, text, note, technique, ref):
 
 exec(open(os.path.join(HERE, "manifest_entries.py")).read())
 
+import re
+EXES = re.findall(r'\[\[lean_exe\]\]\s*name = "([a-z_]+)"', open(os.path.join(VERIF, 'lean', 'lakefile.toml')).read())
 checks = []
 for pid in ids:
     if pid not in CLAIMED:
@@ -32,7 +34,7 @@ na = [{"property_id": pid, "reason": NOT_APPLICABLE.get(pid, "no check built yet
       for pid in ids if pid not in CLAIMED]
 man = {
     "version": 1,
-    "setup_cmd": "cd lean && lake build Demeter driver Proofs",
+    "setup_cmd": "python3 tools/gen_consts.py && cd lean && lake build Demeter Proofs " + " ".join(EXES),
     "hooks": {"guard": "DEMETER_VERIF", "enable": "checks export DEMETER_VERIF=1; no source hook is needed so far (all observations are reachable from the harness)",
               "baseline_off_cmd": "python3 tools/baseline.py", "source_commits": [], "add_only": True},
     "engines": [
